@@ -90,19 +90,25 @@ static void coro_entry() {
   abort();
 }
 
+static std::vector<char *> g_stack_pool;  // stacks of the default size, reused between plans
+
 Coro *coro_create(void (*fn)(void *), void *arg, size_t stack_size) {
   Coro *c = new Coro();
   c->stack_size = stack_size;
-  c->stack = (char *) mmap(nullptr, stack_size + 8192, PROT_READ | PROT_WRITE,
-                           MAP_PRIVATE | MAP_ANONYMOUS, -1, 0);
-  if (c->stack == (char *) MAP_FAILED) {
-    perror("mmap");
-    abort();
+  if (stack_size == 256 * 1024 && !g_stack_pool.empty()) {
+    c->stack = g_stack_pool.back();
+    g_stack_pool.pop_back();
+  } else {
+    c->stack = (char *) mmap(nullptr, stack_size + 8192, PROT_READ | PROT_WRITE, MAP_PRIVATE | MAP_ANONYMOUS, -1, 0);
+    if (c->stack == (char *) MAP_FAILED) {
+      perror("mmap");
+      abort();
+    }
+    // guard pages at both ends
+    mprotect(c->stack, 4096, PROT_NONE);
+    mprotect(c->stack + 4096 + stack_size, 4096, PROT_NONE);
+    c->stack += 4096;
   }
-  // guard pages at both ends
-  mprotect(c->stack, 4096, PROT_NONE);
-  mprotect(c->stack + 4096 + stack_size, 4096, PROT_NONE);
-  c->stack += 4096;
   c->fn = fn;
   c->arg = arg;
   uintptr_t top = (uintptr_t) (c->stack + stack_size);
@@ -126,7 +132,8 @@ void coro_destroy(Coro *c) {
 #if SIM_ASAN
   __asan_unpoison_memory_region(c->stack, c->stack_size);
 #endif
-  munmap(c->stack - 4096, c->stack_size + 8192);
+  if (c->stack_size == 256 * 1024 && g_stack_pool.size() < 16) g_stack_pool.push_back(c->stack);
+  else munmap(c->stack - 4096, c->stack_size + 8192);
   delete c;
 }
 
